@@ -189,7 +189,7 @@ func vGenStatusValue(c *vCase, tag string) any {
 		return ServerStatus{Running: vChance(r, 0.5), SourceName: vPick(r, "Triangles", "Lancero", "Abaco"), Nchannels: r.Intn(500), Nsamples: np + 1 + r.Intn(2000), Npresamp: np,
 			SamplePeriod: time.Duration(1000 + r.Intn(100000)), ChanGroups: []GroupIndex{{Firstchan: r.Intn(10), Nchan: 1 + r.Intn(30)}}, ChannelsWithProjectors: []int{r.Intn(5)}}
 	case "WRITING":
-		return &WritingState{Active: vChance(r, 0.3), Paused: vChance(r, 0.2), BasePath: fmt.Sprintf("/data/run%d", r.Intn(100000)), FilenamePattern: "p%s.%s", WriteLJH22: vChance(r, 0.5), WriteOFF: vChance(r, 0.5)}
+		return &WritingState{Active: vChance(r, 0.3), Paused: vChance(r, 0.2), BasePath: fmt.Sprintf(vPick(r, "/data/run%d", "/data/run%d", "/data/$run%d/${HOME}x"), r.Intn(100000)), FilenamePattern: "p%s.%s", WriteLJH22: vChance(r, 0.5), WriteOFF: vChance(r, 0.5)}
 	case "TRIGGER":
 		var out []FullTriggerState
 		for i := 0; i < 1+r.Intn(3); i++ {
@@ -661,12 +661,17 @@ func vVersionValues(ver int) map[string]any {
 	case 1:
 		npre = 3
 	}
+	// text settings may hold any characters: every other version has '$' in its paths (a saved text is not a shell expression)
+	base, mapfile := fmt.Sprintf("/data/version%d", ver), fmt.Sprintf("/maps/version%d.cfg", ver)
+	if ver%2 == 1 {
+		base, mapfile = fmt.Sprintf("/data/run$%d/$HOME/version%d", ver%10, ver), fmt.Sprintf("/maps/${USER}/version%d$$.cfg", ver)
+	}
 	return map[string]any{
 		"TRIANGLE":   &TriangleSourceConfig{Nchan: 10 + ver, SampleRate: 1000 * float64(ver), Min: RawType(ver), Max: RawType(1000 + ver)},
 		"SIMPULSE":   &SimPulseSourceConfig{Nchan: 20 + ver, SampleRate: 2000 * float64(ver), Pedestal: float64(ver), Amplitudes: []float64{float64(ver)}, Nsamp: 100 * ver},
 		"STATUS":     ServerStatus{Npresamp: npre, Nsamples: nsamp, SourceName: fmt.Sprintf("v%d", ver)},
-		"WRITING":    &WritingState{BasePath: fmt.Sprintf("/data/version%d", ver)},
-		"TESMAPFILE": fmt.Sprintf("/maps/version%d.cfg", ver),
+		"WRITING":    &WritingState{BasePath: base},
+		"TESMAPFILE": mapfile,
 		"ABACO": &AbacoSourceConfig{ActiveCards: []int{ver % 3}, HostPortUDP: []string{fmt.Sprintf("localhost:%d", 4000+ver)},
 			AbacoUnwrapOptions: AbacoUnwrapOptions{RescaleRaw: true, Unwrap: ver%2 == 0, Bias: ver%3 == 0, ResetAfter: 1000 + ver, PulseSign: 1 - 2*(ver%2), InvertChan: []int{ver, ver + 1}}},
 		"ROACH":   &RoachSourceConfig{HostPort: []string{fmt.Sprintf("10.0.0.%d:6000", 1+ver%200)}, Rates: []float64{40000 + float64(ver)}},
